@@ -50,6 +50,26 @@ Definition l1_model (h : l1hist) : outcome (list (list (string * string)) * list
   Ok (map (fun sc => map (fun v => (v_name v, var_type_string cfg (ls_reg st) v)) (sc_vars sc)) scopes,
       map (fun i => (i_path i, qualifier i)) (imports_sorted (ls_reg st)))).
 
+(* how the additions of a history are resolved (classes of Registry.classify_add) *)
+Fixpoint count_adds (cfg : rcfg) (r : registry) (ps : list pkg) (acc : list nat) : registry * list nat :=
+  match ps with
+  | [] => (r, acc)
+  | p :: rest =>
+    let k := classify_add cfg r p in
+    let acc' := map (fun '(j, n) => if Nat.eqb j k then S n else n) (combine (seq 0 4) acc) in
+    count_adds cfg (match add_import cfg r p with AddOk r' _ => r' | _ => r end) rest acc'
+  end.
+Fixpoint l1_count (cfg : rcfg) (r : registry) (ops : list l1op) (acc : list nat) : list nat :=
+  match ops with
+  | [] => acc
+  | L1Scope :: rest => l1_count cfg r rest acc
+  | L1Import p :: rest => let '(r', acc') := count_adds cfg r [p] acc in l1_count cfg r' rest acc'
+  | L1Var _ t _ :: rest => let '(r', acc') := count_adds cfg r (refs t) acc in l1_count cfg r' rest acc'
+  end.
+Definition l1_classes (h : l1hist) : string :=
+  let cfg := mkRcfg (l1_moq h) (parse_aliases (l1_specs h) []) in
+  join "," (map itoa (l1_count cfg [] (l1_ops h) [0; 0; 0; 0])).
+
 Definition pair_eqb (a b : string * string) : bool := String.eqb (fst a) (fst b) && String.eqb (snd a) (snd b).
 Definition vars_eqb (a b : list (list (string * string))) : bool :=
   list_eqb a b (fun x y => list_eqb x y pair_eqb).
@@ -77,4 +97,4 @@ Definition l1_verdict (h : l1hist) (o : l1obs) : string :=
   end.
 
 Definition l1_verdicts (cs : list (l1hist * l1obs)) : list (string * string) :=
-  map (fun c => (l1_id (fst c), l1_verdict (fst c) (snd c))) cs.
+  map (fun c => (l1_id (fst c), (l1_verdict (fst c) (snd c) ++ "|" ++ l1_classes (fst c))%string)) cs.
